@@ -1,6 +1,8 @@
 package interp
 
 import (
+	"strings"
+	"regexp"
 	"fmt"
 	"os"
 	"go/types"
@@ -20,6 +22,12 @@ type txHandle struct {
 	seq     int
 	layer   *storeLayer // nil until the first write (SQLite's deferred BEGIN)
 	hasRead bool        // has run a SELECT: holds a SHARED lock until it is finished
+	conn    *connState  // the pool connection this transaction runs on
+}
+type connHandle struct {
+	st     *Store
+	cs     *connState
+	closed bool
 }
 type stmtHandle struct {
 	st   *Store
@@ -298,13 +306,69 @@ func (in *Interp) storeOf(c *Cell) (*Store, *txHandle) {
 		return h.st, nil
 	case *txHandle:
 		return h.st, h
+	case *connHandle:
+		return h.st, nil // reads through a dedicated connection behave like reads through the pool
 	}
 	in.fail("unsupported", fmt.Sprintf("sql handle without model (%T)", c.Ext))
 	return nil, nil
 }
 
+// readonlyConn: a write statement that would run on a pool connection left in query_only mode fails
+// the way SQLite fails it.
+func (in *Interp) readonlyConn(st *Store, tx *txHandle, text string) Value {
+	if !sqlIsWrite(text) {
+		return nil
+	}
+	var cs *connState
+	if tx != nil {
+		cs = tx.conn
+	} else {
+		cs = st.nextConn()
+	}
+	if cs != nil && cs.queryOnly {
+		return in.newError("attempt to write a readonly database")
+	}
+	return nil
+}
+
+var pragmaQueryOnlyRE = regexp.MustCompile(`(?i)^\s*PRAGMA\s+query_only\s*=\s*(ON|OFF|1|0|TRUE|FALSE)\s*;?\s*$`)
+
 func registerSQL(ex *Explorer) {
 	I := ex.intercepts
+	// (*sql.DB).Conn: a dedicated pool connection; its per-connection state survives Close (back to the pool)
+	I["(*database/sql.DB).Conn"] = func(in *Interp, fn *ssa.Function, a []Value) Value {
+		st, _ := in.storeOf(a[0].(*Cell))
+		if e := in.ctxErr(a[1]); e != nil {
+			return TupleVal{(*Cell)(nil), e}
+		}
+		return TupleVal{in.newHandle("Conn", &connHandle{st: st, cs: st.acquireConn()}), IfaceVal{}}
+	}
+	I["(*database/sql.Conn).Close"] = func(in *Interp, fn *ssa.Function, a []Value) Value {
+		ch := a[0].(*Cell).Ext.(*connHandle)
+		if ch.closed {
+			return in.sentinelError("database/sql.ErrConnDone")
+		}
+		ch.closed = true
+		ch.st.releaseConn(ch.cs)
+		return IfaceVal{}
+	}
+	I["(*database/sql.Conn).ExecContext"] = func(in *Interp, fn *ssa.Function, a []Value) Value {
+		ch := a[0].(*Cell).Ext.(*connHandle)
+		if e := in.ctxErr(a[1]); e != nil {
+			return TupleVal{IfaceVal{}, e}
+		}
+		text := str(a[2])
+		if m := pragmaQueryOnlyRE.FindStringSubmatch(text); m != nil {
+			v := strings.ToUpper(m[1])
+			ch.cs.queryOnly = v == "ON" || v == "1" || v == "TRUE"
+			return TupleVal{in.resultValue(execResult{}), IfaceVal{}}
+		}
+		if sqlIsWrite(text) && ch.cs.queryOnly {
+			return TupleVal{IfaceVal{}, in.newError("attempt to write a readonly database")}
+		}
+		in.fail("unsupported", "sql.Conn.ExecContext of a statement other than PRAGMA query_only: "+text)
+		return nil
+	}
 	reg := func(ic Intercept, names ...string) {
 		for _, n := range names {
 			I[n] = ic
@@ -325,6 +389,9 @@ func registerSQL(ex *Explorer) {
 		params, berr := in.bindArgs(args)
 		if berr != nil {
 			return TupleVal{IfaceVal{}, berr}
+		}
+		if roErr := in.readonlyConn(st, tx, text); roErr != nil {
+			return TupleVal{IfaceVal{}, roErr}
 		}
 		r, err := in.execScript(st, tx, text, params)
 		if err != nil {
@@ -378,7 +445,7 @@ func registerSQL(ex *Explorer) {
 		}
 	}
 	reg(q(false), "(*database/sql.DB).Query", "(*database/sql.Tx).Query")
-	reg(q(true), "(*database/sql.DB).QueryContext", "(*database/sql.Tx).QueryContext")
+	reg(q(true), "(*database/sql.DB).QueryContext", "(*database/sql.Tx).QueryContext", "(*database/sql.Conn).QueryContext")
 	qr := func(ctx bool) Intercept {
 		return func(in *Interp, fn *ssa.Function, a []Value) Value {
 			k := 1
@@ -435,6 +502,9 @@ func registerSQL(ex *Explorer) {
 		if berr != nil {
 			return TupleVal{IfaceVal{}, berr}
 		}
+		if roErr := in.readonlyConn(sh.st, sh.tx, sh.text); roErr != nil {
+			return TupleVal{IfaceVal{}, roErr}
+		}
 		r, err := in.execScript(sh.st, sh.tx, sh.text, params)
 		if err != nil {
 			return TupleVal{IfaceVal{}, err}
@@ -469,7 +539,7 @@ func registerSQL(ex *Explorer) {
 			return TupleVal{(*Cell)(nil), e}
 		}
 		st.txSeq++
-		th := &txHandle{st: st, seq: st.txSeq}
+		th := &txHandle{st: st, seq: st.txSeq, conn: st.acquireConn()}
 		st.open = append(st.open, th)
 		return TupleVal{in.newHandle("Tx", th), IfaceVal{}}
 	}
